@@ -367,7 +367,7 @@ func c14RoundTrip(r *Run) {
 // c14Sweep: repr round trip of every code point in [lo, hi) taken stride apart, alone and followed by 'a1'
 // (an escape must not swallow what follows it): inside gpython, and gpython's repr text evaluated by CPython.
 func c14Sweep(r *Run, lo, hi, stride int) {
-	prog := fmt.Sprintf(`_bad = []
+	prog := c14Prelude + fmt.Sprintf(`_bad = []
 _reprs = []
 _ns = []
 for n in range(%d, %d, %d):
@@ -377,7 +377,7 @@ for n in range(%d, %d, %d):
     r = repr(c)
     r2 = repr(c + 'a1')
     r3 = repr(('7' + c, [c]))
-    if eval(r) != c or eval(r2) != c + 'a1' or eval(r3) != ('7' + c, [c]) or len(eval(r2)) != 3:
+    if eval(r) != c or eval(r2) != c + 'a1' or eval(r3) != ('7' + c, [c]) or len(eval(r2)) != 3 or t(lambda: ord(c)) != n or len(c) != 1 or [x for x in c + 'z'] != [c, 'z'] or list(c + 'z') != [c, 'z']:
         _bad.append(n)
     _ns.append(n)
     _reprs.append(r2)
@@ -395,7 +395,7 @@ for n in range(%d, %d, %d):
 	if bad := SplitTop(g.Obs["_bad"]); len(bad) > 0 {
 		n := strings.TrimPrefix(bad[0], "i")
 		small := c14Prelude + "rt(chr(" + n + "))\nrt(chr(" + n + ") + 'a1')\nrt(('7' + chr(" + n + "), [chr(" + n + ")]))\n"
-		r.Mismatch(&Case{Kind: "c14rt", Sig: "rt:gpython:codepoint", Program: small, Expected: "eval(repr(x)) == x for every code point", Actual: fmt.Sprintf("%d code points fail, first U+%s (decimal)", len(bad), n),
+		r.Mismatch(&Case{Kind: "c14rt", Sig: "rt:gpython:codepoint", Program: small, Expected: "eval(repr(x)) == x, ord(chr(n)) == n, len 1 and iteration by code point for every code point", Actual: fmt.Sprintf("%d code points fail, first U+%s (decimal)", len(bad), n),
 			Detail: "eval(repr(chr(n) + 'a1')) inside gpython"})
 		return
 	}
